@@ -396,6 +396,9 @@ structure LC where
   hasL1 : Bool      -- `client->GotXCutText != NULL`
   hasU8 : Bool      -- `client->GotXCutTextUTF8 != NULL`
   caps : Nat        -- `extendedClipboardServerCapabilities`
+  supportsCut : Bool := true   -- `SupportsClient2Server(client, rfbClientCutText)`: all messages by
+                               -- default; after a SupportedMessages pseudo-rectangle what the server
+                               -- listed — the server lists ClientCutText unconditionally (T0: `srvListsCutText`)
   deriving DecidableEq, Repr
 
 inductive CCb where
@@ -472,6 +475,11 @@ decreasing_by
 /-- `SendClientCutText(client, t, |t|)` -/
 def cliSendClassic (t : Bytes) : Bytes :=
   [UInt8.ofNat msgClientCutText, 0, 0, 0] ++ be32 t.length ++ t
+
+/-- `SendClientCutText` as a whole: if the server's SupportedMessages list lacks ClientCutText the
+function reports success without writing anything -/
+def cliSendClassicIf (c : LC) (t : Bytes) : Option Bytes :=
+  if c.supportsCut then some (cliSendClassic t) else none
 
 /-- the notify(text) message `sendExtClientCutTextNotify` writes -/
 def cliNotifyMsg : Bytes :=
